@@ -486,7 +486,7 @@ Proof.
     apply SInv_log. apply SInv_estab_remove; exact H.
   - (* AWrite *) destruct (live_client i s) as [c|] eqn:E0; [apply live_client_some in E0; destruct E0 as [E _]|apply SInv_log; exact H].
     assert (In i (map fst (clients s))) as Hi by (eapply alookup_Some_key; [apply zeq | eauto]).
-    destruct (n <? 1); [apply SInv_log; exact H|].
+    destruct (n <? 0); [apply SInv_log; exact H|].
     destruct (c_back c =? 0).
     + cbn zeta. set (o := next_send n s). set (s1 := drop_send s).
       assert (SInv s1) as H1 by (apply SInv_drop_send; exact H).
